@@ -185,4 +185,105 @@ example : fields [32, 49, 48, 112, 120, 9, 50, 48, 46, 48, 112, 120, 32, 32, 51,
     [[49, 48, 112, 120], [50, 48, 46, 48, 112, 120], [51, 48]] ∧
     hspacing [32, 49, 48, 112, 120, 9, 50, 48, 46, 48, 112, 120, 32, 32, 51, 48, 32] = some (⟨false, 200, 1⟩, ⟨false, 200, 1⟩) := by decide
 
+/-! ### `ParseSpacing` (one, two or four values) and the image's own use of it -/
+
+inductive SpRes
+  | empty                       -- "" : no value, no error
+  | reject                      -- not one, two or four values
+  | outside                     -- a value outside the modelled number grammar (the implementation may accept or reject it)
+  | ok (t r b l : Dec)
+deriving DecidableEq, Repr
+
+/-- `ParseSpacing` -/
+def spacing (s : List B) : SpRes :=
+  if s = [] then .empty else
+  match fields s with
+  | [a] => match parsePixel a with
+    | some x => .ok x x x x
+    | none => .outside
+  | [a, b] => match parsePixel a, parsePixel b with
+    | some x, some y => .ok x y x y
+    | _, _ => .outside
+  | [a, b, c, d] => match parsePixel a, parsePixel b, parsePixel c, parsePixel d with
+    | some x, some y, some z, some w => .ok x y z w
+    | _, _, _, _ => .outside
+  | _ => .reject
+
+inductive HRes
+  | zero                        -- left and right stay 0
+  | outside
+  | pair (l r : Dec)
+deriving DecidableEq, Repr
+
+/-- the shorthand step of `(*MJImageComponent).calculateDefaultWidth`: `ParseSpacing`, and for what it rejects the
+    three-value form by hand -/
+def imageShorthand (s : List B) : HRes :=
+  match spacing s with
+  | .ok _ r _ l => .pair l r
+  | .outside => .outside
+  | _ =>
+    match fields s with
+    | [_, b, _] => match parsePixel b with
+      | some x => .pair x x
+      | none => .outside
+    | _ => .zero
+
+/-- where `ParseSpacing` accepts, it is CSS's box rule -/
+theorem spacing_css (s : List B) (t r b l : Dec) (h : spacing s = .ok t r b l) :
+    ∃ vs, (fields s).map parsePixel = vs.map some ∧ cssSides vs = some (t, r, b, l) := by
+  unfold spacing at h
+  split at h
+  · cases h
+  · split at h
+    · rename_i f1 hf
+      split at h
+      · rename_i x hx
+        cases h
+        exact ⟨[t], by rw [hf]; simp [hx], rfl⟩
+      · cases h
+    · rename_i f1 f2 hf
+      split at h
+      · rename_i x y hx hy
+        cases h
+        exact ⟨[t, r], by rw [hf]; simp [hx, hy], rfl⟩
+      · cases h
+    · rename_i f1 f2 f3 f4 hf
+      split at h
+      · rename_i x y z w hx hy hz hw
+        cases h
+        exact ⟨[t, r, b, l], by rw [hf]; simp [hx, hy, hz, hw], rfl⟩
+      · cases h
+    · cases h
+
+/-- **one horizontal rule for every component**: on a shorthand whose values are all numbers of the modelled grammar the image's
+    own computation and `ParseHorizontalSpacing` give the same pair — CSS's left and right — for one, two, three and four
+    values; and both give nothing for any other count -/
+theorem image_shorthand_is_horizontal (s : List B) (vs : List Dec) (hs : s ≠ [])
+    (hv : (fields s).map parsePixel = vs.map some) :
+    hspacing s = hsel vs ∧
+    imageShorthand s = (match hsel vs with | some (l, r) => HRes.pair l r | none => HRes.zero) := by
+  unfold hspacing imageShorthand spacing
+  simp only [hs, if_false]
+  have hl : (fields s).length = vs.length := by simpa using congrArg List.length hv
+  rcases hf : fields s with _ | ⟨f1, _ | ⟨f2, _ | ⟨f3, _ | ⟨f4, _ | ⟨f5, fr⟩⟩⟩⟩⟩ <;> rw [hf] at hv hl
+  · rcases vs with _ | ⟨x, vr⟩ <;> simp at hl
+    simp [hsel]
+  · rcases vs with _ | ⟨x, _ | ⟨y, vr⟩⟩ <;> simp at hl
+    simp at hv
+    simp [hsel, hv]
+  · rcases vs with _ | ⟨x, _ | ⟨y, _ | ⟨z, vr⟩⟩⟩ <;> simp at hl
+    simp at hv
+    simp [hsel, hv.1, hv.2]
+  · rcases vs with _ | ⟨x, _ | ⟨y, _ | ⟨z, _ | ⟨w, vr⟩⟩⟩⟩ <;> simp at hl
+    simp at hv
+    simp [hsel, hv.2.1]
+  · rcases vs with _ | ⟨x, _ | ⟨y, _ | ⟨z, _ | ⟨w, _ | ⟨v, vr⟩⟩⟩⟩⟩ <;> simp at hl
+    simp at hv
+    simp [hsel, hv.1, hv.2.1, hv.2.2.1, hv.2.2.2]
+  · rcases vs with _ | ⟨x, _ | ⟨y, _ | ⟨z, _ | ⟨w, _ | ⟨v, vr⟩⟩⟩⟩⟩ <;> simp at hl
+    simp [hsel]
+
+/-- non-vacuity: three values — `ParseSpacing` rejects, the image still gets CSS's pair -/
+example : spacing [49, 32, 50, 32, 51] = .reject ∧ imageShorthand [49, 32, 50, 32, 51] = .pair ⟨false, 2, 0⟩ ⟨false, 2, 0⟩ := by decide
+
 end Gomjml.Lengths
